@@ -214,7 +214,7 @@ def inject(deck, fclass, site):
                 if not o.startswith('%d,' % cid)]
         mine = [o for o in deck['lattice_opts'] if o.startswith('%d,' % cid)]
         ranges = mine[0].split(',')[1:] if mine else []
-        ndim = len(md.Locator(deck)._leaves(c['expr'])) // 2 \
+        ndim = len(md.Locator(deck)._leaves(c['expr'], True)) // 2 \
             if c['lat'] == 1 else (3 if c['hex'].get('a3') else 2)
         if fclass == 'lattice:no-option':
             new = []
